@@ -235,5 +235,303 @@ Proof.
     destruct (Z.eq_dec c1 c) as [->|N].
     + rewrite ss_get_set_eq. rewrite SC. f_equal. destruct ct; reflexivity.
     + rewrite ss_get_set_neq by assumption. rewrite ss_get_set_neq by assumption. reflexivity.
-  - apply (fp_empty_of_unregistered _ _ _ W2). unsr. rewrite C3, ON. unfold sx. unsr. apply nm_get_del_eq.
+  - apply (fp_empty_of_unregistered _ _ _ W2). cbn [sr_names]. rewrite ON. apply nm_get_del_eq.
+Qed.
+
+(* --- others untouched --- *)
+(* in every reachable state a registered proxy still has every resource its object recorded, under its name *)
+Theorem live_proxy_keeps_its_resources : forall ranges maxp maxpool s c ct m o k,
+  reach ranges maxp maxpool s -> ss_get c (sr_sess s) = Some ct -> nm_get m (ss_pxys ct) = Some o -> In k (po_slots o) ->
+  rget_ k (sr_res s) = Some (OPxy m) /\ nm_get m (sr_names s) = Some c.
+Proof.
+  intros ranges maxp maxpool s c ct m o k R S P I. pose proof (reach_wf _ _ _ _ R) as W.
+  split; [apply (wf_pres _ _ W m o k); [exists c, ct; auto|assumption]|apply (wf_n1 _ _ W _ _ _ _ S P)].
+Qed.
+
+(* stopping p (CloseProxy), ending another session, or a registration (whatever its outcome) leaves every
+   other registered proxy registered with the same object, hence (previous theorem) with all its resources *)
+Theorem others_untouched_by_close : forall ranges maxp maxpool s c n s' c' ct' m o,
+  reach ranges maxp maxpool s -> y_close maxp s c n = Some s' -> m <> n ->
+  ss_get c' (sr_sess s) = Some ct' -> nm_get m (ss_pxys ct') = Some o ->
+  (exists ct2, ss_get c' (sr_sess s') = Some ct2 /\ nm_get m (ss_pxys ct2) = Some o) /\
+  (forall k, In k (po_slots o) -> rget_ k (sr_res s') = Some (OPxy m)).
+Proof.
+  intros ranges maxp maxpool s c n s' c' ct' m o R H N S P. pose proof (reach_wf _ _ _ _ R) as W.
+  pose proof (y_close_wf _ _ _ _ _ _ W H) as W'.
+  assert (L : exists ct2, ss_get c' (sr_sess s') = Some ct2 /\ nm_get m (ss_pxys ct2) = Some o).
+  { unfold y_close in H. destruct (ss_get c (sr_sess s)) as [ct|] eqn:SC; [|discriminate].
+    destruct (nm_get n (ss_pxys ct)) as [o0|] eqn:PC; [|injection H as <-; eauto].
+    injection H as <-. unsr.
+    assert (OK : obj_ok n o0) by (apply (wf_obj _ _ W); exists c, ct; auto).
+    destruct (px_close_spec s n o0 OK) as [_ [[_ [_ [_ S4]]] _]]. rewrite S4.
+    destruct (Z.eq_dec c' c) as [->|Nc].
+    - assert (ct' = ct) by congruence. subst ct'. eexists. rewrite ss_get_set_eq. split; [reflexivity|].
+      cbn [ss_pxys sess_with]. rewrite nm_get_del_neq by assumption. assumption.
+    - exists ct'. rewrite ss_get_set_neq by assumption. auto. }
+  split; [exact L|]. destruct L as [ct2 [S2 P2]]. intros k I. apply (wf_pres _ _ W' m o k); [exists c', ct2; auto|assumption].
+Qed.
+
+Theorem others_untouched_by_session_end : forall ranges maxp maxpool s c s' k0 c' ct' m o,
+  reach ranges maxp maxpool s -> y_end s c = Some (s', k0) -> c' <> c ->
+  ss_get c' (sr_sess s) = Some ct' -> nm_get m (ss_pxys ct') = Some o ->
+  ss_get c' (sr_sess s') = Some ct' /\ (forall k, In k (po_slots o) -> rget_ k (sr_res s') = Some (OPxy m)).
+Proof.
+  intros ranges maxp maxpool s c s' k0 c' ct' m o R H N S P. pose proof (reach_wf _ _ _ _ R) as W.
+  pose proof (y_end_wf _ _ _ _ _ W H) as W'.
+  assert (L : ss_get c' (sr_sess s') = Some ct').
+  { unfold y_end in H. destruct (ss_get c (sr_sess s)) as [ct|] eqn:SC; [|discriminate]. injection H as <- _.
+    assert (AG : agree s s) by (unfold agree; csplit; reflexivity).
+    destruct (close_all_spec _ c (ss_pxys ct) s s ct W AG SC eq_refl) as [s2 [ct2 [_ [_ [_ [_ [_ [_ SS]]]]]]]].
+    unsr. rewrite SS. unfold ss_get, ss_del. rewrite (al_get_del_neq Z.eqb_spec) by assumption. exact S. }
+  split; [exact L|]. intros k I. apply (wf_pres _ _ W' m o k); [exists c', ct'; auto|assumption].
+Qed.
+
+Theorem others_untouched_by_registration : forall ranges maxp maxpool s c q s' r c' ct' m o,
+  reach ranges maxp maxpool s -> group_free_req q -> y_register maxp s c q = Some (s', r) ->
+  ss_get c' (sr_sess s) = Some ct' -> nm_get m (ss_pxys ct') = Some o ->
+  (exists ct2, ss_get c' (sr_sess s') = Some ct2 /\ nm_get m (ss_pxys ct2) = Some o) /\
+  (forall k, In k (po_slots o) -> rget_ k (sr_res s') = Some (OPxy m)).
+Proof.
+  intros ranges maxp maxpool s c q s' r c' ct' m o R G H S P. pose proof (reach_wf _ _ _ _ R) as W.
+  pose proof (y_register_wf _ _ _ _ _ _ _ W (allowed_no0 ranges) G H) as W'.
+  assert (L : exists ct2, ss_get c' (sr_sess s') = Some ct2 /\ nm_get m (ss_pxys ct2) = Some o).
+  { destruct r as [real|e].
+    - (* success: the new name was free, so it is not m *)
+      unfold y_register in H. destruct (ss_get c (sr_sess s)) as [ct|] eqn:SC; [|discriminate].
+      destruct ((0 <? maxp) && (maxp <? ss_used ct + weight (q_type q))); [discriminate|].
+      destruct (nm_get (q_name q) (sr_names s)) as [c0|] eqn:NN; [discriminate|].
+      destruct (px_run s q) as [[s1 [o1|e1]]|] eqn:PR; [| |discriminate]; [|discriminate].
+      destruct (px_run_spec _ s q s1 _ G (wf_tcp _ _ W) (wf_udp _ _ W) (allowed_no0 ranges) PR) as [[_ [_ [_ S4]]] _].
+      destruct (q_addok q); [|discriminate]. injection H as <- _. unsr. rewrite S4.
+      assert (Nm : m <> q_name q). { intros ->. pose proof (wf_n1 _ _ W _ _ _ _ S P). congruence. }
+      destruct (Z.eq_dec c' c) as [->|Nc].
+      + assert (ct' = ct) by congruence. subst ct'. eexists. rewrite ss_get_set_eq. split; [reflexivity|].
+        cbn [ss_pxys sess_with]. rewrite nm_get_set_neq by assumption. assumption.
+      + exists ct'. rewrite ss_get_set_neq by assumption. auto.
+    - destruct (failed_registration_restores _ _ _ _ _ _ _ _ R G H) as [_ [_ [_ [_ [_ [_ E]]]]]].
+      exists ct'. rewrite E. auto. }
+  split; [exact L|]. destruct L as [ct2 [S2 P2]]. intros k I. apply (wf_pres _ _ W' m o k); [exists c', ct2; auto|assumption].
+Qed.
+
+(* --- the identical registration after the stop succeeds --- *)
+Definition core_eqv (a b : sr) : Prop :=
+  sr_res a = sr_res b /\ sr_grp a = sr_grp b /\ sr_names a = sr_names b /\ sr_squat a = sr_squat b /\
+  pm_eqv (sr_tcp a) (sr_tcp b) /\ pm_eqv (sr_udp a) (sr_udp b) /\
+  (forall c0, ss_get c0 (sr_sess a) = ss_get c0 (sr_sess b)).
+
+Lemma routes_run_same : forall t q, q_group q = ""%string -> forall ks done a b sa all,
+  sr_res a = sr_res b -> routes_run t q ks done a = (sa, inl all) -> exists sb, routes_run t q ks done b = (sb, inl all).
+Proof.
+  intros t q G ks. induction ks as [|rk ks IH]; intros done a b sa all E H.
+  - simpl in *. injection H as _ <-. eauto.
+  - cbn [routes_run] in *. rewrite G in *. cbn [String.eqb] in *. unfold res_add in *. rewrite <- E.
+    destruct (res_get (SRoute (rkind_of t) rk) (sr_res a)); [discriminate|].
+    eapply IH; [|exact H]. unsr. rewrite E. reflexivity.
+Qed.
+
+Lemma acquire_listen_same : forall proto a b n port ch o sa rp,
+  (proto = 0 \/ proto = 1) -> port <> 0 -> sr_res a = sr_res b -> sr_squat a = sr_squat b ->
+  pm_eqv (get_pm proto a) (get_pm proto b) ->
+  acquire_listen proto a n port ch true o = Some (sa, inl rp) ->
+  exists sb, acquire_listen proto b n port ch true o = Some (sb, inl rp).
+Proof.
+  intros proto a b n port ch o sa rp Hp Np ER EQ [EU EF] H. unfold acquire_listen in *.
+  assert (PR : sr_probe b proto = sr_probe a proto) by (unfold sr_probe; rewrite ER, EQ; reflexivity).
+  rewrite PR. unfold pm_acquire in *. destruct (Z.eqb_spec port 0) as [|_]; [contradiction|].
+  destruct (zmem port (pm_free (get_pm proto a))) eqn:ZA.
+  - assert (ZB : zmem port (pm_free (get_pm proto b)) = true) by (apply zmem_In; apply EF; apply zmem_In; assumption).
+    rewrite ZB. destruct (sr_probe a proto port) eqn:PP; [|discriminate].
+    unfold res_add in *.
+    assert (RA : res_get (SSock proto port) (sr_res (set_pm proto (pm_take (get_pm proto a) n port) a)) = res_get (SSock proto port) (sr_res a))
+      by (destruct Hp as [-> | ->]; reflexivity).
+    assert (RB : res_get (SSock proto port) (sr_res (set_pm proto (pm_take (get_pm proto b) n port) b)) = res_get (SSock proto port) (sr_res a))
+      by (rewrite ER; destruct Hp as [-> | ->]; reflexivity).
+    rewrite RA in H. rewrite RB. destruct (res_get (SSock proto port) (sr_res a)); [discriminate|].
+    injection H as _ <-. eauto.
+  - destruct (uget port (pm_used (get_pm proto a))); discriminate.
+Qed.
+
+Lemma px_run_same : forall a b q sa o,
+  q_group q = ""%string -> (weight (q_type q) = 1 -> q_port q <> 0 /\ q_lok q = true) -> core_eqv a b ->
+  px_run a q = Some (sa, inl o) -> exists sb o', px_run b q = Some (sb, inl o').
+Proof.
+  intros a b q sa o G HP [ER [EG [EN [EQ [ET [EU ES]]]]]] H. unfold px_run in *.
+  destruct (q_type q) eqn:T; cbn [weight] in HP.
+  - destruct (HP eq_refl) as [Np LK]. rewrite G in *. cbn [String.eqb] in *. rewrite LK in *.
+    destruct (acquire_listen 0 a (q_name q) (q_port q) (q_choice q) true (OPxy (q_name q))) as [[s' [rp|e]]|] eqn:E; try discriminate.
+    destruct (acquire_listen_same 0 a b _ _ _ _ _ _ (or_introl eq_refl) Np ER EQ ET E) as [sb E']. rewrite E'. eauto.
+  - destruct (HP eq_refl) as [Np LK]. rewrite LK in *.
+    destruct (acquire_listen 1 a (q_name q) (q_port q) (q_choice q) true (OPxy (q_name q))) as [[s' [rp|e]]|] eqn:E; try discriminate.
+    destruct (acquire_listen_same 1 a b _ _ _ _ _ _ (or_intror eq_refl) Np ER EQ EU E) as [sb E']. rewrite E'. eauto.
+  - destruct (routes_run THttp q (http_rkeys q) [] a) as [s' [all|e]] eqn:E; [|discriminate].
+    destruct (routes_run_same THttp q G _ _ a b _ _ ER E) as [sb E']. rewrite E'. eauto.
+  - match type of H with context [routes_run THttps ?q' _ _ _] => set (qq := q') in * end.
+    destruct (routes_run THttps qq (https_rkeys q) [] a) as [s' [all|e]] eqn:E; [|discriminate].
+    destruct (routes_run_same THttps qq eq_refl _ _ a b _ _ ER E) as [sb E']. rewrite E'. eauto.
+  - destruct (routes_run TTcpmux q (mux_rkeys q) [] a) as [s' [all|e]] eqn:E; [|discriminate].
+    destruct (routes_run_same TTcpmux q G _ _ a b _ _ ER E) as [sb E']. rewrite E'. eauto.
+  - unfold res_add in *. rewrite <- ER. destruct (res_get (SVis (q_name q)) (sr_res a)); [discriminate|eauto].
+  - unfold res_add in *. rewrite <- ER. destruct (res_get (SVis (q_name q)) (sr_res a)); [discriminate|eauto].
+  - unfold res_add in *. rewrite <- ER. destruct (res_get (SNat (q_name q)) (sr_res a)); [discriminate|eauto].
+Qed.
+
+Lemma y_register_same : forall maxp a b c q sa real,
+  q_group q = ""%string -> (weight (q_type q) = 1 -> q_port q <> 0 /\ q_lok q = true) -> core_eqv a b ->
+  y_register maxp a c q = Some (sa, ROk real) -> exists sb real', y_register maxp b c q = Some (sb, ROk real').
+Proof.
+  intros maxp a b c q sa real G HP CE H. pose proof CE as [ER [EG [EN [EQ [ET [EU ES]]]]]].
+  unfold y_register in *. rewrite <- ES, <- EN.
+  destruct (ss_get c (sr_sess a)) as [ct|]; [|discriminate].
+  destruct ((0 <? maxp) && (maxp <? ss_used ct + weight (q_type q))); [discriminate|].
+  destruct (nm_get (q_name q) (sr_names a)); [discriminate|].
+  destruct (px_run a q) as [[s1 [o|e]]|] eqn:PR; try discriminate.
+  destruct (px_run_same a b q s1 o G HP CE PR) as [sb [o' PR']]. rewrite PR'.
+  destruct (q_addok q); [eauto|discriminate].
+Qed.
+
+Lemma core_eqv_sym : forall a b, core_eqv a b -> core_eqv b a.
+Proof.
+  intros a b [E1 [E2 [E3 [E4 [E5 [E6 E7]]]]]]. unfold core_eqv. csplit; auto using pm_eqv_sym.
+Qed.
+
+(* register p, stop it by CloseProxy, submit the identical request again on the same session: it succeeds
+   (explicit remote port or a port-less type; the oracles of the request — Listen succeeds, nobody races
+   for the name — are the ones of the first registration) *)
+Theorem reregister_after_close_succeeds : forall ranges maxp maxpool s c q s1 real s2,
+  reach ranges maxp maxpool s -> group_free_req q -> (weight (q_type q) = 1 -> q_port q <> 0) ->
+  y_register maxp s c q = Some (s1, ROk real) -> y_close maxp s1 c (q_name q) = Some s2 ->
+  exists s3 real', y_register maxp s2 c q = Some (s3, ROk real').
+Proof.
+  intros ranges maxp maxpool s c q s1 real s2 R G HP H1 H2.
+  destruct (register_then_close_restores _ _ _ _ _ _ _ _ _ R G H1 H2) as [E1 [E2 [E3 [E4 [E5 [E6 [E7 _]]]]]]].
+  assert (CE : core_eqv s s2) by (unfold core_eqv; csplit; auto).
+  assert (LK : weight (q_type q) = 1 -> q_port q <> 0 /\ q_lok q = true).
+  { intros Wt. split; [auto|]. pose proof (reach_wf _ _ _ _ R) as W.
+    unfold y_register in H1. destruct (ss_get c (sr_sess s)); [|discriminate].
+    destruct ((0 <? maxp) && _); [discriminate|]. destruct (nm_get (q_name q) (sr_names s)); [discriminate|].
+    destruct (px_run s q) as [[s1' [o|e1]]|] eqn:PR; try discriminate.
+    destruct (px_run_spec _ s q s1' _ G (wf_tcp _ _ W) (wf_udp _ _ W) (allowed_no0 ranges) PR) as [_ [_ [_ [_ [_ [_ [_ [_ [_ [[L|L] _]]]]]]]]]]; [assumption|lia]. }
+  eapply y_register_same; eauto.
+Qed.
+
+(* the same on a NEW session after the old one ended: the failed-or-not history does not matter, only that
+   the name is free again and the state is reachable; here: the session ends, a fresh session logs in *)
+Theorem failed_registration_can_be_retried : forall ranges maxp maxpool s c q s' e sa real,
+  reach ranges maxp maxpool s -> group_free_req q -> (weight (q_type q) = 1 -> q_port q <> 0 /\ q_lok q = true) ->
+  y_register maxp s c q = Some (s', RErr e) ->
+  (* whatever made it fail is an oracle or a conflict; if the same request would have succeeded from s
+     (e.g. with the oracle q_addok flipped), it succeeds from s' as well: the failure left nothing behind *)
+  forall q', q_group q' = ""%string -> (weight (q_type q') = 1 -> q_port q' <> 0 /\ q_lok q' = true) ->
+  y_register maxp s c q' = Some (sa, ROk real) -> exists sb real', y_register maxp s' c q' = Some (sb, ROk real').
+Proof.
+  intros ranges maxp maxpool s c q s' e sa real R G HP H q' G' HP' H'.
+  destruct (failed_registration_restores _ _ _ _ _ _ _ _ R G H) as [E1 [E2 [E3 [E4 [E5 [E6 E7]]]]]].
+  assert (CE : core_eqv s s') by (unfold core_eqv; csplit; auto).
+  eapply y_register_same; eauto.
+Qed.
+
+(* --- quota: the counter of a session equals the weight of the proxies it holds, on every history --- *)
+Definition wsum (l : list (string * pobj)) : Z := fold_right (fun e acc => po_w (snd e) + acc) 0 l.
+
+Lemma wsum_del : forall n o l, NoDup (map fst l) -> nm_get n l = Some o -> wsum (nm_del n l) = wsum l - po_w o.
+Proof.
+  induction l as [|[m x] r IH]; simpl; intros ND H; [discriminate|].
+  unfold nm_get, nm_del in *. simpl in *. inversion ND as [|? ? Hn Hr]; subst.
+  destruct (String.eqb_spec n m) as [->|N].
+  - injection H as ->. rewrite (al_del_absent String.eqb_spec); [lia|]. apply (al_notin_get_none String.eqb_spec). assumption.
+  - simpl. rewrite IH by assumption. lia.
+Qed.
+
+Lemma wsum_set : forall n o l, nm_get n l = None -> wsum (nm_set n o l) = po_w o + wsum l.
+Proof.
+  intros n o l H. unfold nm_set, al_set. simpl. change (al_del String.eqb n l) with (nm_del n l).
+  unfold nm_del. rewrite (al_del_absent String.eqb_spec) by assumption. reflexivity.
+Qed.
+
+Definition QI (maxp : Z) (s : sr) : Prop :=
+  0 < maxp -> forall c ct, ss_get c (sr_sess s) = Some ct -> ss_used ct = wsum (ss_pxys ct).
+
+Lemma qi_step : forall A maxp maxpool s o s' out,
+  WF A s -> ~ In 0 A -> group_free_op o -> QI maxp s -> sr_step maxp maxpool s o = Some (s', out) -> QI maxp s'.
+Proof.
+  intros A maxp maxpool s o s' out W H0 G Q H MP.
+  assert (LT : (0 <? maxp) = true) by lia.
+  destruct o as [c pool|c q|c n|c why|c|proto port|proto port]; cbn [sr_step] in H.
+  - destruct (ss_get c (sr_sess s)) eqn:SC; [discriminate|]. injection H as <- _. unsr. intros c0 ct0 S0.
+    destruct (Z.eq_dec c0 c) as [->|N]; [rewrite ss_get_set_eq in S0; injection S0 as <-; reflexivity|].
+    rewrite ss_get_set_neq in S0 by assumption. apply (Q MP _ _ S0).
+  - destruct (y_register maxp s c q) as [[s1 r]|] eqn:R; [|discriminate]. injection H as <- _.
+    destruct r as [real|e].
+    + unfold y_register in R. destruct (ss_get c (sr_sess s)) as [ct|] eqn:SC; [|discriminate].
+      destruct ((0 <? maxp) && (maxp <? ss_used ct + weight (q_type q))); [discriminate|].
+      destruct (nm_get (q_name q) (sr_names s)) as [c0|] eqn:NN; [discriminate|].
+      destruct (px_run s q) as [[s1' [o|e1]]|] eqn:PR; [| |discriminate]; [|discriminate].
+      destruct (px_run_spec _ s q s1' _ G (wf_tcp _ _ W) (wf_udp _ _ W) H0 PR) as [[_ [_ [_ S4]]] [_ [_ [[_ [_ [OW _]]] [OT _]]]]].
+      destruct (q_addok q); [|discriminate]. injection R as <- _. unsr. rewrite S4, LT.
+      assert (PN : nm_get (q_name q) (ss_pxys ct) = None).
+      { destruct (nm_get (q_name q) (ss_pxys ct)) as [o'|] eqn:P; [|reflexivity]. pose proof (wf_n1 _ _ W _ _ _ _ SC P). congruence. }
+      intros c1 ct1 S1. destruct (Z.eq_dec c1 c) as [->|N].
+      * rewrite ss_get_set_eq in S1. injection S1 as <-. cbn [ss_used ss_pxys sess_with].
+        rewrite wsum_set by assumption. rewrite OW, OT, (Q MP _ _ SC). lia.
+      * rewrite ss_get_set_neq in S1 by assumption. apply (Q MP _ _ S1).
+    + assert (RC : exists ranges', True) by (exists []; exact I). clear RC.
+      (* a failure gives every session entry back *)
+      unfold y_register in R. destruct (ss_get c (sr_sess s)) as [ct|] eqn:SC; [|discriminate].
+      assert (BK : (if 0 <? maxp then (if 0 <? maxp then ss_used ct + weight (q_type q) else ss_used ct) - weight (q_type q)
+                    else (if 0 <? maxp then ss_used ct + weight (q_type q) else ss_used ct)) = ss_used ct) by (rewrite LT; lia).
+      assert (KEEP : forall l, l = sr_sess s -> forall c1 ct1,
+                ss_get c1 (ss_set c (sess_with ct (ss_pxys ct) (ss_used ct)) l) = Some ct1 -> ss_used ct1 = wsum (ss_pxys ct1)).
+      { intros l -> c1 ct1 S1. destruct (Z.eq_dec c1 c) as [->|N].
+        - rewrite ss_get_set_eq in S1. injection S1 as <-. cbn [ss_used ss_pxys sess_with]. apply (Q MP _ _ SC).
+        - rewrite ss_get_set_neq in S1 by assumption. apply (Q MP _ _ S1). }
+      destruct ((0 <? maxp) && (maxp <? ss_used ct + weight (q_type q))); [injection R as <- _; exact (Q MP)|].
+      destruct (nm_get (q_name q) (sr_names s)) as [c0|] eqn:NN.
+      { injection R as <- _. unsr. rewrite BK. apply KEEP. reflexivity. }
+      destruct (px_run s q) as [[s1' [o|e1]]|] eqn:PR; [| |discriminate].
+      * destruct (px_run_spec _ s q s1' _ G (wf_tcp _ _ W) (wf_udp _ _ W) H0 PR) as [[_ [_ [_ S4]]] [_ [_ [OK _]]]].
+        destruct (q_addok q); [discriminate|]. injection R as <- _. unsr. rewrite BK.
+        destruct (px_close_spec s1' (q_name q) o OK) as [_ [[_ [_ [_ C4]]] _]].
+        apply KEEP. rewrite C4, S4. reflexivity.
+      * destruct (px_run_spec _ s q s1' _ G (wf_tcp _ _ W) (wf_udp _ _ W) H0 PR) as [[_ [_ [_ S4]]] _].
+        injection R as <- _. unsr. rewrite BK. apply KEEP. rewrite S4. reflexivity.
+  - destruct (y_close maxp s c n) as [s1|] eqn:R; [|discriminate]. injection H as <- _.
+    unfold y_close in R. destruct (ss_get c (sr_sess s)) as [ct|] eqn:SC; [|discriminate].
+    destruct (nm_get n (ss_pxys ct)) as [o|] eqn:PC; [|injection R as <-; exact (Q MP)].
+    injection R as <-. unsr. rewrite LT.
+    assert (OK : obj_ok n o) by (apply (wf_obj _ _ W); exists c, ct; auto).
+    destruct (px_close_spec s n o OK) as [_ [[_ [_ [_ C4]]] _]]. rewrite C4.
+    intros c1 ct1 S1. destruct (Z.eq_dec c1 c) as [->|N].
+    + rewrite ss_get_set_eq in S1. injection S1 as <-. cbn [ss_used ss_pxys sess_with].
+      rewrite (wsum_del n o) by (auto; apply (wf_pk _ _ W _ _ SC)). rewrite (Q MP _ _ SC). reflexivity.
+    + rewrite ss_get_set_neq in S1 by assumption. apply (Q MP _ _ S1).
+  - destruct (y_end s c) as [[s1 k]|] eqn:R; [|discriminate]. injection H as <- _.
+    unfold y_end in R. destruct (ss_get c (sr_sess s)) as [ct|] eqn:SC; [|discriminate]. injection R as <- _.
+    assert (AG : agree s s) by (unfold agree; csplit; reflexivity).
+    destruct (close_all_spec _ c (ss_pxys ct) s s ct W AG SC eq_refl) as [s2 [ct2 [_ [_ [_ [_ [_ [_ SS]]]]]]]].
+    unsr. rewrite SS. intros c1 ct1 S1. destruct (Z.eq_dec c1 c) as [->|N].
+    + unfold ss_get, ss_del in S1. rewrite (al_get_del_eq Z.eqb_spec) in S1. discriminate.
+    + unfold ss_get, ss_del in S1. rewrite (al_get_del_neq Z.eqb_spec) in S1 by assumption. apply (Q MP _ _ S1).
+  - destruct (ss_get c (sr_sess s)) as [ct|] eqn:SC; [|discriminate].
+    destruct (ss_pool ct <? ss_cap ct); injection H as <- _; [|exact (Q MP)].
+    unsr. intros c1 ct1 S1. destruct (Z.eq_dec c1 c) as [->|N].
+    + rewrite ss_get_set_eq in S1. injection S1 as <-. cbn [ss_used ss_pxys]. apply (Q MP _ _ SC).
+    + rewrite ss_get_set_neq in S1 by assumption. apply (Q MP _ _ S1).
+  - destruct ((1 <=? port) && sr_probe s proto port); [|discriminate]. injection H as <- _. exact (Q MP).
+  - injection H as <- _. exact (Q MP).
+Qed.
+
+Theorem quota_equals_live_weight : forall ranges maxp maxpool s c ct,
+  reach ranges maxp maxpool s -> 0 < maxp -> ss_get c (sr_sess s) = Some ct -> ss_used ct = wsum (ss_pxys ct).
+Proof.
+  intros ranges maxp maxpool s c ct [ops [G R]] MP.
+  assert (X : forall ops s0 s1, WF (pm_allowed ranges) s0 -> QI maxp s0 -> Forall group_free_op ops ->
+              sr_run maxp maxpool ops s0 = Some s1 -> QI maxp s1).
+  { clear. induction ops as [|o t IH]; intros s0 s1 W Q G H; simpl in H.
+    - injection H as <-. assumption.
+    - destruct (sr_step maxp maxpool s0 o) as [[s' out]|] eqn:E; [|discriminate]. inversion G; subst.
+      eapply IH; [| | |exact H]; auto.
+      + eapply sr_step_wf; eauto. apply allowed_no0.
+      + eapply qi_step; eauto. apply allowed_no0. }
+  assert (Q0 : QI maxp (sr_new ranges)) by (intros _ c0 ct0 H; discriminate H).
+  intros SC. exact (X ops _ _ (wf_new ranges) Q0 G R MP c ct SC).
 Qed.
